@@ -48,9 +48,10 @@ def _init_worker():
     mpp._parent_process = None
 
 
-def tlc_emit(run, spec, cfg, scratch, name, **kw):
+def tlc_emit(run, spec, cfg, scratch, name, workers=None, **kw):
+    """run TLC with emission; records larger than one buffered write (~8 kB) need workers=1"""
     emit = scratch / f"{name}.ndjson"
-    res = run_tlc(spec, cfg, scratch, workers=WORKERS, env={"EMIT_FILE": emit}, **kw)
+    res = run_tlc(spec, cfg, scratch, workers=workers or WORKERS, env={"EMIT_FILE": emit}, **kw)
     run.add_tlc(res)
     t0 = time.time()
     recs = list(read_emitted(emit))
